@@ -151,3 +151,36 @@ MUTANTS += [
     M("C18-m3", "break", ["C18"], FAST, "        this->x.multiply(a.x, g1_endomorphism_beta);\n        this->y.copy(a.y);\n        this->z.copy(a.z);", "        this->z.copy(a.z);\n        this->y.copy(a.z);\n        this->y.copy(a.y);\n        this->x.multiply(a.x, g1_endomorphism_beta);", "endomorphism: y is written from z before it is read (wrong only when this == &a)"),
     M("C18-m4", "break", ["C18"], "src/bls12_381/pairing.cpp", "        Fq12 f2;\n        f2.inverse(a);\n        Fq12 r;\n        r.multiply(f1, f2);", "        Fq12& r = result;\n        Fq12 f2;\n        r.multiply(f1, f1);\n        f2.inverse(a);\n        r.multiply(f1, f2);", "final_exponentiation writes the result object before its last read of the input"),
 ]
+
+FP = "include/core/fp.hpp"
+FQ2 = "src/bls12_381/fq2.cpp"
+FQ6 = "src/bls12_381/fq6.cpp"
+FQ12 = "src/bls12_381/fq12.cpp"
+BLS = "src/bls12_381/bls12_381.cpp"
+
+MUTANTS += [
+    # ---- C02 / C03 (generic C++ field layer: Fr in every configuration, Fq in the portable ones)
+    M("C02-m1", "break", ["C02", "C03"], FP, "            bool carry = this->val.add(a.val, b.val);\n            if (BigInt<bits>::compare(this->val, p) >= 0 || carry) {", "            bool carry = this->val.add(a.val, b.val);\n            if (BigInt<bits>::compare(this->val, p) > 0 || carry) {", "a + b == p is left unreduced"),
+    M("C02-m2", "equiv", ["C02", "C03"], FP, "if (BigInt<bits>::compare(this->val, p) >= 0 || shift_out != 0) {", "if (BigInt<bits>::compare(this->val, p) >= 0) {", "doubling: the shifted-out bit is always 0 for p < 2^(bits-1)"),
+    M("C02-m3", "break", ["C02", "C03"], FP, "            if (a.val.is_zero()) {\n#ifdef RESIST_SIDE_CHANNELS\n                this->val.subtract(a.val, BigInt<bits>::zero);\n#else\n                this->val.copy(a.val);\n#endif\n            } else {\n                this->val.subtract(p, a.val);\n            }", "            this->val.subtract(p, a.val);", "-0 becomes p"),
+    M("C02-m4", "break", ["C02", "C03"], FP, "            if (BigInt<bits>::compare(a, p) == -1) {\n#ifdef RESIST_SIDE_CHANNELS\n                this->val.subtract(a, BigInt<bits>::zero);", "            if (BigInt<bits>::compare(a, p) != 1) {\n#ifdef RESIST_SIDE_CHANNELS\n                this->val.subtract(a, BigInt<bits>::zero);", "reduce leaves p unreduced"),
+    M("C02-m5", "break", ["C02", "C03"], FP, " + ((typename BigInt<bits>::dword_t) carry) + ((typename BigInt<bits>::dword_t) meta_carry);", " + ((typename BigInt<bits>::dword_t) carry);", "Montgomery reduction drops the meta carry"),
+    M("C02-m6", "break", ["C02"], "src/bls12_381/fq.cpp", "this->val.bytes[BigInt<fq_bits>::byte_length - 1] &= 0x1F;\n        this->into_montgomery_form();", "this->into_montgomery_form();", "Fq::read_big_endian keeps the flag bits"),
+    # ---- C04
+    M("C04-m1", "break", ["C04"], FQ2, "        this->c0.subtract(a.c0, a.c1);\n        this->c1.add(a.c1, t0);", "        this->c0.subtract(a.c0, a.c1);\n        this->c1.subtract(a.c1, t0);", "Fq2 multiply_by_nonresidue sign"),
+    M("C04-m2", "equiv", ["C04"], FQ2, "        result.square(this->c0);\n        t.square(this->c1);\n        result.add(result, t);", "        t.square(this->c1);\n        result.square(this->c0);\n        result.add(result, t);", "norm: squares computed in the other order"),
+    M("C04-m3", "break", ["C04"], FQ6, "unsigned int coeff_idx = power < 6 ? power : power % 6;", "unsigned int coeff_idx = power < 6 ? power : power % 3;", "Fq6 Frobenius coefficient index for powers >= 6"),
+    M("C04-m4", "break", ["C04"], FQ12, "        this->c1.multiply(a.c1, t1);\n        this->c1.negate(this->c1);\n    }", "        this->c1.multiply(a.c1, t1);\n    }", "Fq12 inverse without the final negation"),
+    M("C04-m5", "equiv", ["C04"], FQ2, "        aa.multiply(a.c0, b.c0);\n        bb.multiply(a.c1, b.c1);\n        o.add(b.c0, b.c1);", "        o.add(b.c0, b.c1);\n        bb.multiply(a.c1, b.c1);\n        aa.multiply(a.c0, b.c0);", "Fq2 multiply: independent statements reordered"),
+    M("C04-m6", "break", ["C04", "C18"], FQ2, "        this->c1.add(a.c1, a.c0);\n        this->c1.multiply(this->c1, o);\n        this->c1.subtract(this->c1, aa);\n        this->c1.subtract(this->c1, bb);\n        this->c0.subtract(aa, bb);", "        this->c0.subtract(aa, bb);\n        this->c1.add(a.c1, a.c0);\n        this->c1.multiply(this->c1, o);\n        this->c1.subtract(this->c1, aa);\n        this->c1.subtract(this->c1, bb);", "Fq2 multiply writes c0 before reading a.c0 (wrong only when the output is a)"),
+    # ---- C09
+    M("C09-m1", "break", ["C09"], CURVEC, "            if (checked && greater) {\n                return false;\n            }", "", "uncompressed decode accepts the sign flag"),
+    M("C09-m2", "break", ["C09"], CURVEC, "            if constexpr(!compressed) {\n                if (!g.is_on_curve()) {\n                    return false;\n                }\n            }", "", "uncompressed decode skips the curve equation"),
+    M("C09-m3", "break", ["C09"], CURVEC, "                for (int i = 1; i != sizeof(this->data); i++) {", "                for (int i = 1; i != sizeof(this->data) - 1; i++) {", "identity padding: last byte not examined"),
+    M("C09-m4", "equiv", ["C09"], CURVEC, "            if (memcmp(canonical.data, this->data, sizeof(this->data)) != 0) {\n                return false;\n            }\n            if constexpr(!compressed) {\n                if (!g.is_on_curve()) {\n                    return false;\n                }\n            }", "            if constexpr(!compressed) {\n                if (!g.is_on_curve()) {\n                    return false;\n                }\n            }\n            if (memcmp(canonical.data, this->data, sizeof(this->data)) != 0) {\n                return false;\n            }", "canonicity test after the curve test"),
+    M("C09-m5", "break", ["C09"], CURVEC, "        if (checked && is_encoding_compressed(this->data[0]) != compressed) {\n            return false;\n        }", "", "form bit not checked"),
+    # ---- C19
+    M("C19-m1", "break", ["C19"], BLS, "return encoding->decode(*reinterpret_cast<G1Affine*>(a), checked);\n    } else {\n        const Encoding<G1Affine, false>*", "return encoding->decode(*reinterpret_cast<G1Affine*>(a), true);\n    } else {\n        const Encoding<G1Affine, false>*", "C wrapper ignores the checked flag (compressed G1)"),
+    M("C19-m2", "break", ["C19"], BLS, "reinterpret_cast<Fq12*>(result)->random_gt(*s, *reinterpret_cast<const Fq12*>(base), get_random_bytes);", "reinterpret_cast<Fq12*>(result)->random_gt(*s, *reinterpret_cast<const Fq12*>(result), get_random_bytes);", "gt_multiply_random uses the result object as base"),
+    M("C19-m3", "break", ["C19"], BLS, "    return Fq12::equal(*reinterpret_cast<const Fq12*>(a), *reinterpret_cast<const Fq12*>(b));", "    return Fq12::equal(*reinterpret_cast<const Fq12*>(a), *reinterpret_cast<const Fq12*>(a));", "gt_equal compares a with itself"),
+]
